@@ -51,6 +51,11 @@ func (s *FuzzServiceStub) ImportBlock(block types.Block) (types.StateRoot, error
 		defer cs.TrimUnfinalizedBlocksForFuzz()
 	}
 
+	// Where the node stands before this import: a rejected block must leave it there
+	var headBefore types.HeaderHash
+	haveHead := false
+	ancestryBefore := cs.GetAncestry()
+
 	blocks := cs.GetBlocks()
 	if len(blocks) > 0 {
 		latestBlock := cs.GetLatestBlock()
@@ -59,6 +64,7 @@ func (s *FuzzServiceStub) ImportBlock(block types.Block) (types.StateRoot, error
 		if err != nil {
 			return types.StateRoot{}, fmt.Errorf("error computing latest block hash: %w", err)
 		}
+		headBefore, haveHead = latestBlockHash, true
 
 		ancestry := cs.GetAncestry()
 		var latestAncestry types.AncestryItem
@@ -102,6 +108,14 @@ func (s *FuzzServiceStub) ImportBlock(block types.Block) (types.StateRoot, error
 	// Run the STF and get the state root
 	isProtocolError, err := stf.RunSTF()
 	if err != nil {
+		if haveHead {
+			// Forget the rejected block: head, prior state, block list and ancestry as before
+			if rerr := cs.RestoreBlockAndState(headBefore); rerr != nil {
+				logger.Errorf("%s cannot return to the head after a rejected block: %v", ctx, rerr)
+			}
+			cs.ClearAncestry()
+			cs.AppendAncestry(ancestryBefore)
+		}
 		if !isProtocolError {
 			// Runtime error: unexpected bug, should terminate the program
 			// Note: We return the error here, caller (server) should decide to close connection
